@@ -275,6 +275,19 @@ class Handles:
                              "a single element is read at %s instead of the cursor position" % fmt(a[1])[:50], t.line)
         return n
 
+    def flush_publishes(self, rep, rule):
+        """async writer: poll_flush must reach the map insertion (the sync writer publishes in flush); R15.5"""
+        n = 0
+        for b in self.facts.bodies:
+            if b.impl and b.impl["self_ty"] == self.writer and b.name == "poll_flush" and b.kind != "Closure":
+                reach = self.inter.reachable([b], through_dyn=False)
+                ins = any(s.short == "HashMap::insert" for rb in reach.values() for s in self.inter.sites(rb))
+                n += 1
+                rep.ob(rule, b.id, "async writer publishes its buffer on flush (like the sync writer)", ins, "" if ins else
+                       "poll_flush only flushes the private cursor: data flushed through a still-open async handle is not visible to "
+                       "readers opened afterwards (the sync writer publishes on flush)", b.span)
+        return n
+
     # ---------------------------------------------------------------- writer (R04.1, R14.5, R19.2)
     def writer_rules(self, rep, rule_pub="R04.1", rule_del="R14.5", rule_time="R19.2"):
         n = 0
